@@ -1,7 +1,7 @@
 (* Property C10: likelihood calls -- exact count, one batch per step, budget and support kept; return value of run(). *)
 From Coq Require Import List Arith.
 Import ListNotations.
-Require Import NV.Base NV.Shell2 NV.Shell2Inv NV.Shell2Support NV.Shell2Run NV.Shell2Loop NV.Shell2LoopProofs NV.Shell2LoopEE.
+Require Import NV.Base NV.Shell2 NV.Shell2Inv NV.Shell2Support NV.Shell2Run NV.Shell2Loop NV.Shell2LoopProofs NV.Shell2LoopEE NV.Shell2SupportLoop.
 
 Section P.
 Variable contains : bid -> pid -> bool.
@@ -50,6 +50,11 @@ Theorem C10_count : forall c first its ft fn s s' ret, run_call c first its ft f
   n_like s' = n_like s + n_batch * length its.
 Proof. exact (call_count contains in_cube lik blob n_batch). Qed.
 
+(* a run() loop entered after exploration stores exactly one sample per likelihood call: n_batch per iteration *)
+Theorem C10_loop_stored : forall c its ft fn s s' ret, explored s = true -> run_loop c its ft fn s = Some (s', ret) ->
+  explored s' = true /\ length (all_pts s') = length (all_pts s) + n_batch * length its /\ t_pts s' = t_pts s.
+Proof. exact (loop_stored contains in_cube lik blob n_batch). Qed.
+
 (* no batch is started at or above n_like_max: the total exceeds the limit by less than one batch; with the limit
    already reached the call evaluates nothing *)
 Theorem C10_budget : forall c l first its ft fn s s' ret, rc_lim c = Some l -> run_call c first its ft fn s = Some (s', ret) ->
@@ -87,6 +92,7 @@ Print Assumptions C10_stored.
 Print Assumptions C10_lockstep.
 Print Assumptions C10_stored_nocand.
 Print Assumptions C10_count.
+Print Assumptions C10_loop_stored.
 Print Assumptions C10_budget.
 Print Assumptions C10_success.
 Print Assumptions C10_branch.
